@@ -210,6 +210,68 @@ func run(c vrt.Case) vrt.Obs {
 			o.Count("sessions_with_the_same_message_queued_in_both_directions", 1)
 		}
 		runScenario(&o, sc, fmt.Sprintf("s%d", i))
+		if i%8 == 6 {
+			// a history: the same stations exchange the same identifiers again later in this process, after every message
+			// was corrected in place (one letter of the body or of an attachment changed, all lengths as before)
+			if sc2 := correctedCopy(sc); sc2 != nil {
+				runScenario(&o, sc2, fmt.Sprintf("s%d-corrected", i))
+				o.Count("sessions_repeating_earlier_identifiers_with_corrected_content", 1)
+			}
+		}
 	}
 	return o
+}
+
+// correctedCopy returns the scenario with one letter or digit of every message changed to another one (nil when no
+// message has one): same identifiers, same sizes, other bytes.
+func correctedCopy(sc *b2fx.Scenario) *b2fx.Scenario {
+	cp := *sc
+	cp.Truth = map[string][]byte{}
+	changed := 0
+	fix := func(in []b2fx.MsgSpec) []b2fx.MsgSpec {
+		out := append([]b2fx.MsgSpec(nil), in...)
+		for i := range out {
+			m := &out[i]
+			swap := func(b []byte) ([]byte, bool) {
+				for k := len(b) / 2; k < len(b); k++ {
+					if c := b[k]; c >= '0' && c <= '8' || c >= 'a' && c <= 'y' || c >= 'A' && c <= 'Y' {
+						nb := append([]byte(nil), b...)
+						nb[k] = c + 1
+						return nb, true
+					}
+				}
+				return b, false
+			}
+			done := false
+			if nb, ok := swap(m.Body); ok {
+				m.Body, done = nb, true
+			} else if len(m.Files) > 0 {
+				m.Files = append([]b2fx.FileSpec(nil), m.Files...)
+				if nb, ok := swap(m.Files[0].Data); ok {
+					m.Files[0].Data, done = nb, true
+				}
+			}
+			if done {
+				changed++
+			}
+			c, err := m.Canonical()
+			if err != nil {
+				return nil
+			}
+			if _, dup := cp.Truth[m.MID]; !dup {
+				cp.Truth[m.MID] = c
+			}
+		}
+		return out
+	}
+	if cp.MsgsA = fix(sc.MsgsA); cp.MsgsA == nil && len(sc.MsgsA) > 0 {
+		return nil
+	}
+	if cp.MsgsB = fix(sc.MsgsB); cp.MsgsB == nil && len(sc.MsgsB) > 0 {
+		return nil
+	}
+	if changed == 0 {
+		return nil
+	}
+	return &cp
 }
